@@ -376,3 +376,79 @@ M("C14", "views-share-keyed-table-kwargs-helper-flag-differs", "beacon.py", "", 
     ("beacon.py", _V_RAW, "        return self._memo_view(\"name\", False, strict=True)\n"),
     ("beacon.py", _V_SET, "        return self._memo_view(\"name\", True, strict=True)\n"),
 ])
+
+# ================================================================================================ R9: reading a view is pure
+# (seeded C14l fills a new OrderedDict subclass whose __missing__ resolves an enum member to the name/const key and "remembers"
+# it with an item store - mappingproxy forwards the subscript, so a read inserts a key into the cached view; the mutants below
+# are other read hooks / mapping classes that write on a read, the twins are mapping classes whose read hooks are pure)
+_CLS_ANCHOR = "class BeaconConfig:\n"
+_NEW_OD = ("beacon.py", "        settings = OrderedDict()\n        for setting in self.settings_tuple:\n",
+           "        settings = SettingsView()\n        for setting in self.settings_tuple:\n")
+
+
+def _view_class(body):
+    return ("beacon.py", _CLS_ANCHOR, "class SettingsView(OrderedDict):\n" + body + "\n\n" + _CLS_ANCHOR)
+
+
+M("C14", "view-mapping-defaultdict-factory", "beacon.py", "", "", "C14.R9", edits=[
+    ("beacon.py", "        settings = OrderedDict()\n        for setting in self.settings_tuple:\n",
+     "        settings = collections.defaultdict(lambda: None)\n        for setting in self.settings_tuple:\n"),
+])
+M("C14", "view-mapping-lru-getitem-moves-key", "beacon.py", "", "", "C14.R9", edits=[
+    _NEW_OD,
+    _view_class("    def __getitem__(self, key):\n        value = super().__getitem__(key)\n        self.move_to_end(key)\n        return value\n"),
+])
+M("C14", "view-mapping-missing-setdefault", "beacon.py", "", "", "C14.R9", edits=[
+    _NEW_OD,
+    _view_class("    def __missing__(self, key):\n        if isinstance(key, bytes):\n            return self.setdefault(key, self[key.decode()])\n"
+                "        raise KeyError(key)\n"),
+])
+M("C14", "view-mapping-get-stores-default-via-super", "beacon.py", "", "", "C14.R9", edits=[
+    _NEW_OD,
+    _view_class("    def get(self, key, default=None):\n        if key not in self:\n            super().__setitem__(key, default)\n"
+                "        return super().get(key, default)\n"),
+])
+M("C14", "view-mapping-contains-normalises-key-in-base", "beacon.py", "", "", "C14.R9", edits=[
+    ("beacon.py", "        settings = OrderedDict()\n        for setting in self.settings_tuple:\n",
+     "        settings = SettingsView() if pretty else _AliasDict()\n        for setting in self.settings_tuple:\n"),
+    ("beacon.py", _CLS_ANCHOR,
+     "class _AliasDict(dict):\n    def __contains__(self, key):\n        if not dict.__contains__(self, key) and dict.__contains__(self, str(key)):\n"
+     "            dict.__setitem__(self, key, dict.__getitem__(self, str(key)))\n        return dict.__contains__(self, key)\n\n\n"
+     "class SettingsView(_AliasDict):\n    def __repr__(self):\n        return \"SettingsView(%d settings)\" % len(self)\n\n\n" + _CLS_ANCHOR),
+])
+M("C14", "view-mapping-missing-remembers-through-helper-kwargs", "beacon.py", "", "", "C14.R9", edits=[
+    _NEW_OD,
+    _view_class("    def _remember(self, key, value, **options):\n        self[key] = value\n        return value\n\n"
+                "    def __missing__(self, key):\n        name = getattr(key, \"name\", None)\n        if name in self:\n"
+                "            return self._remember(key, self[name], strict=True)\n        raise KeyError(key)\n"),
+])
+# the convenience seeded/C14l pretends to be, done without remembering the resolved key
+T("C14", "twin-view-mapping-missing-resolves-without-storing", "beacon.py", "", "", edits=[
+    _NEW_OD,
+    _view_class("    def __missing__(self, key):\n        if isinstance(key, (BeaconSetting, DeprecatedBeaconSetting)):\n"
+                "            for alias in (key.name, key.value):\n                if alias in self:\n                    return self[alias]\n"
+                "        raise KeyError(key)\n"),
+])
+T("C14", "twin-view-mapping-subclass-repr-only", "beacon.py", "", "", edits=[
+    _NEW_OD,
+    _view_class("    def __repr__(self):\n        return \"SettingsView(%s)\" % \", \".join(str(k) for k in self)\n"),
+])
+T("C14", "twin-view-mapping-from-pairs", "beacon.py", "", "", edits=[
+    ("beacon.py", "        settings = OrderedDict()\n        for setting in self.settings_tuple:\n",
+     "        pairs = []\n        for setting in self.settings_tuple:\n"),
+    ("beacon.py", _MAP_RET, "            pairs.append((key, val))\n        return MappingProxyType(OrderedDict(pairs))\n"),
+])
+T("C14", "twin-view-mapping-from-factory-helper", "beacon.py", "", "", edits=[
+    ("beacon.py", "        settings = OrderedDict()\n        for setting in self.settings_tuple:\n",
+     "        settings = _new_mapping(ordered=True)\n        for setting in self.settings_tuple:\n"),
+    ("beacon.py", _CLS_ANCHOR, "def _new_mapping(**options):\n    if options.get(\"ordered\"):\n        return OrderedDict()\n    return {}\n\n\n" + _CLS_ANCHOR),
+])
+T("C14", "twin-view-mapping-defaultdict-without-factory", "beacon.py", "", "", edits=[
+    ("beacon.py", "        settings = OrderedDict()\n        for setting in self.settings_tuple:\n",
+     "        settings = collections.defaultdict(None)\n        for setting in self.settings_tuple:\n"),
+])
+T("C14", "twin-view-mapping-subclass-with-write-api", "beacon.py", "", "", edits=[
+    _NEW_OD,
+    _view_class("    def add(self, key, value):\n        self[key] = value\n        self.move_to_end(key)\n\n"
+                "    def __setitem__(self, key, value):\n        super().__setitem__(key, value)\n"),
+])
